@@ -117,6 +117,7 @@ def handle (toks : List String) : Option String := do
     let h : Option Bytes := if hash == "x" then none else parseHex hash
     pure (showBool (dsCovers (zk == "1") h ((parseHex digest).getD [])))
   | ("hist" :: _) :: _ => pure "~"  -- histories on one handle: no model side (the model has no ValidationCache)
+  | ("entry" :: _) :: _ => pure "~"  -- other entry points / anchor configuration: judged by the harness oracle only
   | [["run", _hid, qname, qtype, _e, d, c, _faults], "U" :: n :: us, "T" :: _ :: ts] =>
     let depth ← (d.drop 1).toNat?
     let cd := c == "C1"
